@@ -10,7 +10,7 @@ import z3
 
 from pyvc import alg, dsl
 from pyvc.alg import Num
-from pyvc.builtins_model import NpArr
+from pyvc.builtins_model import NpArr, SymSeq
 from pyvc.interp import Model, Obj, PyRaise, Unsupported
 
 MATH = "phyclone.utils.math"
@@ -237,3 +237,98 @@ def h_major_cn_prior(I, fi):
                 "allele probabilities (e, e, min(1 - e, x / total))", kind="post")
     lp0 = I.to_num(log_pi.data[0])
     P.check("cn-prior.uniform-prior", all((I.to_num(v) - lp0).is_zero() for v in log_pi.data) and P.z(alg.sexp(lp0) * G) == 1, "log_pi uniform and normalised: exp(log_pi) = 1 / #genotypes", kind="post")
+
+
+# ----------------------------------------------------------------------------------------------------------- grid construction
+
+
+def h_likelihood_grid(I, fi):
+    """_compute_liklihood_grid: log_ll[s, i] is the pyclone density of sample s's counts at the i-th CCF grid value, for every sample
+    and every grid index (beta-binomial with the given precision, or binomial); nothing else is written."""
+    P = I.P
+    S, G = alg.sym("S", "Int"), alg.sym("G", "Int")
+    P.assume(z3.And(P.z(S) >= 0, P.z(G) >= 0))
+    dens = ["beta-binomial", "binomial", "something-else"][P.decide(3)]
+    dsl.cover(I, "grid." + dens)
+    stores, calls = [], []
+
+    class LL(Model):
+        def setitem(self, I_, idx, v):
+            stores.append((idx, v))
+
+    pts = SymSeq("sample_points", S, lambda s_: ("sample-point", I.to_num(s_).key()))
+    ccf = SymSeq("ccf_grid", G, lambda i: alg.raw_app("ccf", I.to_num(i)))
+    prec = alg.sym("precision")
+    I.registry.call_contracts[PYC + ".log_pyclone_beta_binomial_pdf"] = lambda I_, a, k, n: (calls.append(("bb",) + tuple(a)), ("bb-pdf", a[0], I_.to_num(a[1]).key(), I_.to_num(a[2]).key()))[1]
+    I.registry.call_contracts[PYC + ".log_pyclone_binomial_pdf"] = lambda I_, a, k, n: (calls.append(("b",) + tuple(a)), ("b-pdf", a[0], I_.to_num(a[1]).key()))[1]
+    I.registry.generic_loops.add(fi.qualname)
+    I.call_function(fi, [ccf, dens, LL(), prec, pts], {}, force_inline=True)
+    gens = P.ghost.get("generic_indices", [])
+    if len(gens) < 2:
+        dsl.cover(I, "grid.empty")
+        P.check("grid.nothing-written-for-an-empty-range", not stores, "no sample or no grid point: nothing is written", kind="post")
+        return
+    s_, i = gens
+    if dens == "something-else":
+        P.check("grid.unknown-density-writes-nothing", not stores and not calls, "an unknown density name leaves the grid untouched (run.py restricts the option to the two known names)", kind="post")
+        return
+    ok = len(stores) == 1 and isinstance(stores[0][0], tuple) and len(stores[0][0]) == 2 and (I.to_num(stores[0][0][0]) - s_).is_zero() and (I.to_num(stores[0][0][1]) - i).is_zero()
+    P.check("grid.cell-written", ok, "iteration (s, i) writes exactly log_ll[s, i]", kind="post")
+    pt = ("sample-point", s_.key())
+    c = alg.raw_app("ccf", i).key()
+    want = ("bb-pdf", pt, c, prec.key()) if dens == "beta-binomial" else ("b-pdf", pt, c)
+    P.check("grid.value", ok and stores[0][1] == want and len(calls) == 1, "with the density of that sample's counts at that grid value (and the given precision for the beta-binomial)", kind="post")
+
+
+def h_to_likelihood_grid(I, fi, ccf_fi):
+    P = I.P
+    G = alg.sym("G", "Int")
+    P.assume(P.z(G) >= 2)
+    S = alg.sym("S", "Int")
+    P.assume(P.z(S) >= 0)
+    case = P.decide(3)
+    dens, prec = [("beta-binomial", alg.sym("precision")), ("beta-binomial", None), ("binomial", None)][case]
+    dsl.cover(I, "to_grid.case%d" % case)
+    self = Obj(fi.cls)
+    pts = ("sample-data-points",)
+    self.fields.update({"samples": SymSeq("samples", S, lambda j: ("sample", j)), "sample_data_points": pts})
+    calls, zeros, lin = [], [], []
+
+    class NP(Model):
+        def m_zeros(self, I_, shape):
+            zeros.append(shape)
+            return ("zeros", len(zeros))
+
+        def m_linspace(self, I_, a, b, n):
+            lin.append((a, b, n))
+            return ("linspace",)
+
+    class TL(Model):
+        def m_List(self, I_, x):
+            return ("typed-list", x)
+
+    class Typed(Model):
+        def a_typed(self, I_):
+            return TL()
+
+    I.registry.globals_override["np"] = NP()
+    I.registry.globals_override["numba"] = Typed()
+    I.registry.call_contracts[PYC + "._compute_liklihood_grid"] = lambda I_, a, k, n: calls.append(a)
+    # the documented failure: requires precision for the beta-binomial (callers: run.py always passes one)
+    I.registry.allowed_raises[:] = [lambda I_, node, what: "Precision must be set" in what and case == 1]
+    try:
+        out = I.call_function(fi, [self, dens, G], {"precision": prec}, force_inline=True)
+    except PyRaise:
+        P.ghost["raise_expected"] = True
+        P.check("to_grid.raises-only-without-precision", case == 1 and not calls, "the only failure is a beta-binomial request without a precision", kind="post")
+        return
+    P.check("to_grid.no-silent-beta-binomial-without-precision", case != 1, "a beta-binomial grid is never computed without a precision", kind="post")
+    ok = len(zeros) == 1 and isinstance(zeros[0], tuple) and len(zeros[0]) == 2 and (I.to_num(zeros[0][0]) - S).is_zero() and (I.to_num(zeros[0][1]) - G).is_zero()
+    P.check("to_grid.shape", ok, "the grid has one row per sample and grid_size columns", kind="post")
+    okl = len(lin) == 1 and I.to_num(lin[0][0]).is_zero() and (I.to_num(lin[0][1]) - 1).is_zero() and (I.to_num(lin[0][2]) - G).is_zero()
+    P.check("to_grid.ccf-grid", okl, "the CCF values are linspace(0, 1, grid_size): i / (grid_size - 1)", kind="post")
+    okc = len(calls) == 1 and calls[0][0] == ("linspace",) and calls[0][1] == dens and calls[0][2] == ("zeros", 1) and (calls[0][3] is prec) and calls[0][4] == ("typed-list", pts)
+    P.check("to_grid.fills-and-returns-that-array", okc and out == ("zeros", 1), "exactly that array is filled from (CCF grid, density, precision, the mutation's per-sample points) and returned", kind="post")
+
+
+GRID_COVERS = ["grid.beta-binomial", "grid.binomial", "grid.something-else", "grid.empty"]
